@@ -135,13 +135,31 @@ namespace details {
                 using type = std::tuple<>;
             };
 
+            // Attributes of services without any characteristic directly in front of Service: such a service has
+            // no first characteristic that could carry its attributes
+            template < std::size_t Pending, typename Ss >
+            struct pending_offset
+            {
+                static constexpr std::size_t value = 0;
+            };
+
+            template < std::size_t Pending, typename S, typename ...Ss >
+            struct pending_offset< Pending, std::tuple< S, Ss... > >
+            {
+                static constexpr std::size_t value = std::is_same< S, Service >::value
+                    ? Pending
+                    : pending_offset<
+                        ( std::tuple_size< typename S::characteristics >::value == 0 ? Pending + S::number_of_attributes : 0 ),
+                        std::tuple< Ss... > >::value;
+            };
+
             // Add just to the first characteritic of a service the numer of attributes that are used to
             // model the service
             template < typename C, typename ...Cs >
             struct add_service_offset< std::tuple< C, Cs... > >
             {
                 using type = std::tuple<
-                    impl::characteristic_with_service_attribute_offset< C, Service::number_of_service_attributes, Priorities::template characteristic_priority< Services, Service, C >::value >,
+                    impl::characteristic_with_service_attribute_offset< C, Service::number_of_service_attributes + pending_offset< 0, Services >::value, Priorities::template characteristic_priority< Services, Service, C >::value >,
                     impl::characteristic_with_service_attribute_offset< Cs, 0, Priorities::template characteristic_priority< Services, Service, Cs >::value >... >;
             };
 
